@@ -29,7 +29,7 @@ IMAP_KINDS = ["AcctCreate", "AcctRemove", "MboxCreate", "MboxRemove", "MboxRenam
 STEP_PREDS = {
     "ExitZero": {"ExitStatus"},
     "PasswordCreates": {"Result:CredsPassword", "Creds:CredsPassword"},
-    "AcctNoPrecis": {"CreatedAccountUnreachable", "AcctNameNotCanonical"} |
+    "AcctNoPrecis": {"CreatedAccountUnreachable", "AcctNameNotCanonical", "OtherMessagesTouched", "NewAccountNotEmpty"} |
                     {"%s:%s" % (p, k) for p in ("Result", "Accts", "Mboxes", "Msgs", "Listing") for k in IMAP_KINDS},
     "RenameMissingOk": {"Result:MboxRename", "Mboxes:MboxRename", "Msgs:MboxRename"},
     "RenameLike": {"Result:MboxRename", "Mboxes:MboxRename", "Msgs:MboxRename"},
@@ -40,6 +40,11 @@ STATE_PREDS = {
     "AcctNoPrecis": {"AcctNameNotCanonical"},
     "CopyRemoveBlob": {"BodyLost"},
 }
+# a deviation of the environment kind (depends on the wall clock, not on the command sequence): go-imap-sql seeds
+# the generator of UIDVALIDITY values with the current second, so commands run within one second draw the same
+# values.  Not modelled as a switch of the design; matched by its two predicates (UidReused only together with
+# UvRecycled in the same trace).
+ENV_DEV = "UvSeedSecond"
 
 CFG = """SPECIFICATION %(spec)s
 CONSTANTS
@@ -155,18 +160,18 @@ FAMILIES = {
 }
 QUICK_PER_FAMILY = 14
 THOROUGH_FAMILY_CAP = 700
-QUICK_SIM = 40
+QUICK_SIM = 30
 THOROUGH_SIM = 900
 
 SIMS = {
-    "sim-empty": dict(kinds=CREDS + ACCT + MBOX + MSGS, spell=["a", "aC", "aW", "b", "x"], pws=["p1", "p2"],
-                      confirms=["flag", "y", "n"], sus=[False, True], mnames=["INBOX", "A", "A.B", "a.B", "C", "Junk", "Trash"],
+    "sim-empty": dict(kinds=CREDS + ACCT + MBOX + MSGS, spell=["a", "aC", "aW", "b"], pws=["p1", "p2"],
+                      confirms=["flag", "y", "n"], sus=[False, True], mnames=["INBOX", "A", "A.B", "a.B", "Junk"],
                       specials=["none", "Junk"], flagsets=[["S"], ["F", "K"]], addflags=[[], ["S"]],
-                      ranges=ALL_RANGES, uidmodes=[True, False], preset="empty", maxsteps=12),
-    "sim-msgs": dict(kinds=MBOX + MSGS + ["AcctRemove", "AcctCreate"], spell=["a", "aC"], confirms=["flag", "y", "n"],
-                     mnames=["INBOX", "A", "A.B", "a.B", "B", "C"], flagsets=[["S"], ["F", "K"], ["S", "F"]],
-                     addflags=[[], ["S"], ["F"]], ranges=ALL_RANGES, uidmodes=[True, False], preset="treemsgs",
-                     maxsteps=9),
+                      ranges=["1", "2", "1:2", "*", "2:*"], uidmodes=[True, False], preset="empty", maxsteps=12),
+    "sim-msgs": dict(kinds=MBOX + MSGS + ["AcctRemove", "AcctCreate"], spell=["a", "aC"], confirms=["flag", "n"],
+                     mnames=["INBOX", "A", "A.B", "a.B", "C"], flagsets=[["S"], ["F", "K"]],
+                     addflags=[[], ["F"]], ranges=["1", "2", "1:2", "*", "1:*", "3"], uidmodes=[True, False],
+                     preset="treemsgs", maxsteps=9),
 }
 
 TRACE = dict(kinds=["CredsCreate"], spell=["a"], pws=["p1", "p2"], maxsteps=0)
@@ -223,9 +228,12 @@ def classify(recs, odevs):
         r = conform[0]
         used = set(r["used"])
         fids = set()
+        names = set(v["p"] for v in r["viol"])
         for v in r["viol"]:
             exp = [d for d in v["d"] if d in odevs and v["p"] in STEP_PREDS.get(d, ())]
             exp += [d for d in used if d in odevs and v["p"] in STATE_PREDS.get(d, ())]
+            if ENV_DEV in odevs and (v["p"] == "UvRecycled" or (v["p"] == "UidReused" and "UvRecycled" in names)):
+                exp.append(ENV_DEV)
             if not exp:
                 return "violation", viol, []
             fids |= set((odevs[d]["id"], d) for d in exp)
@@ -236,7 +244,7 @@ def classify(recs, odevs):
 def run(ctx, replay):
     thorough = ctx.tier == "thorough"
     odevs = open_devs()
-    devs_open = [d for d in ALL_DEVS if d in odevs]
+    devs_open = [d for d in ALL_DEVS if d in odevs]   # ENV_DEV is not a switch of the model
     binary = build(ctx)
 
     # ---- (T) exhaustive model checking of the design ------------------------------------
@@ -276,38 +284,31 @@ def run(ctx, replay):
         behs = []
         fam_counts = {}
         names = sorted(FAMILIES)
-        with ThreadPoolExecutor(max_workers=4) as ex:
-            gens = list(ex.map(lambda n: ctx.tlc("AcctMgmt", None, name="gen-" + n, workers=2, timeout=1200,
-                                                 cfg_text=cfg(devs=devs_open, gen=True, tail=GEN_TAIL, **FAMILIES[n])),
-                               names))
-        for n, g in zip(names, gens):
+        snames = sorted(SIMS)
+        nsim = THOROUGH_SIM if thorough else QUICK_SIM
+
+        def gen(n):
+            if n in FAMILIES:
+                return ctx.tlc("AcctMgmt", None, name="gen-" + n, workers=2, timeout=1200,
+                               cfg_text=cfg(devs=devs_open, gen=True, tail=GEN_TAIL, **FAMILIES[n]))
+            return ctx.tlc("AcctMgmt", None, name=n, workers=1, timeout=2400, simulate=nsim, depth=40,
+                           cfg_text=cfg(devs=devs_open, gen=True, tail=GEN_TAIL, spec="SimSpec", **SIMS[n]))
+        with ThreadPoolExecutor(max_workers=8) as ex:
+            gens = list(ex.map(gen, snames + names))
+        for n, g in zip(snames + names, gens):
             if not g["ok"]:
                 raise vlib.Infra("behaviour generation (%s) failed: %s %s" % (n, g["invariant"], g["error"]))
             fb = behaviours_from(g)
             if not fb:
-                raise vlib.Infra("TLC produced no behaviours for family " + n)
+                raise vlib.Infra("TLC produced no behaviours for " + n)
             fam_counts[n] = len(fb)
-            fb.sort(key=lambda x: json.dumps(x, sort_keys=True))
-            pick = vlib.sample(ctx.rng, fb, THOROUGH_FAMILY_CAP if thorough else QUICK_PER_FAMILY)
-            for x in pick:
+            if n in FAMILIES:
+                fb.sort(key=lambda x: json.dumps(x, sort_keys=True))
+                fb = vlib.sample(ctx.rng, fb, THOROUGH_FAMILY_CAP if thorough else QUICK_PER_FAMILY)
+            for x in fb:
                 x["family"] = n
-            behs += pick
+            behs += fb
         ctx.cov["family_behaviours_total"] = fam_counts
-        nsim = THOROUGH_SIM if thorough else QUICK_SIM
-        snames = sorted(SIMS)
-        with ThreadPoolExecutor(max_workers=2) as ex:
-            sims = list(ex.map(lambda n: ctx.tlc("AcctMgmt", None, name=n, workers=1, timeout=1500, simulate=nsim,
-                                                 depth=40, cfg_text=cfg(devs=devs_open, gen=True, tail=GEN_TAIL,
-                                                                        spec="SimSpec", **SIMS[n])), snames))
-        for n, g in zip(snames, sims):
-            if not g["ok"]:
-                raise vlib.Infra("behaviour simulation (%s) failed: %s %s" % (n, g["invariant"], g["error"]))
-            sb = behaviours_from(g)
-            if not sb:
-                raise vlib.Infra("TLC simulation produced no behaviours (%s)" % n)
-            for x in sb:
-                x["family"] = n
-            behs += sb
         seen, uniq = set(), []
         for x in behs:
             k = json.dumps([x["preset"], x["hist"]], sort_keys=True)
